@@ -1,14 +1,18 @@
 """C03 -- M3: recorded calls judged by TLC against MpfPost (spec/MpfPost.tla) on limb integers."""
-from .. import core, gen, cases, arith
+from .. import machine, core, gen, cases, arith
 from . import common
 
-PROP = "C03"; LEVEL = "exploration"
+PROP = "C03"; LEVEL = "model_checking"
 
 
 def main():
     chk = core.Check(PROP, LEVEL)
-    runner = cases.Runner(core.use_repo())
+    mp = core.use_repo()
+    runner = cases.Runner(mp)
     common.run_models(chk, MODELS)
+    tier = chk.pick("quick", "thorough")
+    machine.run_unary(chk, mp, [("MpfMachineL", "MpfMachineL_c03_%s.cfg" % tier, "scaled", False),
+                                ("MpfMachineL", "MpfMachineL_real_c03_%s.cfg" % tier, "real", True)])
     g = gen.G(chk.seed * 1000003 + int(PROP[1:]))
     cs = arith.GROUPS[PROP](g, chk.pick(600, 30000))
     common.judge_cases(chk, cs, runner, "post", "integer power postcondition (side / exactness / 1 ulp / small-exact correct rounding) violated")
